@@ -46,6 +46,18 @@ def classify(prop, sig, facts, replay):
             if k in facts and _m(rx, facts[k]):
                 ok = False
                 break
+        if ok and "equal" in m:
+            a, b = (facts.get(k) for k in m["equal"])
+            ok = a is not None and a == b
+        if ok and "permutation" in m:
+            a, b = (facts.get(k) for k in m["permutation"])
+            ok = a is not None and b is not None and _tokens(a) == _tokens(b)
         if ok:
             return f["id"]
     return None
+
+
+def _tokens(x):
+    """multiset of tokens of an observation (order-insensitive view used by 'permutation' matchers)"""
+    s = x if isinstance(x, str) else json.dumps(x, default=str, sort_keys=True)
+    return sorted(re.findall(r"[A-Za-z0-9_$%#-]+|[^\sA-Za-z0-9_$%#-]", s))
